@@ -8,7 +8,9 @@ Definition dec_variant (v : tval) : variant :=
   {| v_validate_first := vbool (vnth 0 v); v_secret_isvalid := vbool (vnth 1 v); v_wait_agree := true |}.
 Definition dec_mstate (k : N) : t_mstate :=
   match k with 0 => MActive | 1 => MRevoked | 2 => MExpired | 3 => MInactive | 4 => MMissing | 5 => MExp25s | 6 => MExp10s
-             | 7 => MExp2s | 8 => MExp1ms | _ => MSoon60s end%N.
+             | 7 => MExp2s | 8 => MExp1ms | 9 => MSoon60s
+             | _ => MMissing    (* 10, 11: revoked / deactivated and then aged out of the store: the main record is gone *)
+             end%N.
 Definition dec_cell (v : tval) : cell :=
   {| ce_id := match vn (vnth 0 v) with 0 => IdNone | 1 => IdHalf | 2 => IdListen | 3 => IdTarget | _ => IdStranger end%N;
      ce_mid := match vn (vnth 1 v) with 0 => MidNone | 1 => MidTunnel | _ => MidOther end%N;
